@@ -204,6 +204,22 @@ def chan(tf, w, path):
     return tf[g][c]
 
 
+class KeptChannels(dict):
+    """What is left when the caller keeps the channel objects and lets go of the TdmsFile they came from
+    (`ch = TdmsFile.open(p)[g][c]`, a helper that returns channels): looks like tf[group][channel] to `chan`."""
+    def __init__(self, tf, w):
+        dict.__init__(self)
+        for path, names in w.names.items():
+            if len(names) == 2:
+                try:
+                    self.setdefault(names[0], {})[names[1]] = tf[names[0]][names[1]]
+                except KeyError:
+                    pass
+
+    def close(self):
+        pass
+
+
 def do_op(tf, w, op):
     """Run one direct read op; returns the raw library result (exceptions propagate)."""
     c = chan(tf, w, op['ch'])
